@@ -228,6 +228,7 @@ def run(chk):
         chk.violation("C14.segment", dr.node, "GOOD = r'[^{}/]+'", "", "variable segment pattern vanished")
 
     hunt_rules(chk, repo)
+    hunt3_rules(chk, repo)
 
 
 def _t(v) -> str:
@@ -351,6 +352,63 @@ def hunt_rules(chk, repo):
     else:
         chk.violation("C14.routedef", ga[0], K.short(ga[0]), 'getattr(router, "add_" + method, None) with add_route() as fallback',
                       f"hdrs.METH_ALL contains {', '.join(lacking)} but UrlDispatcher has no add_{lacking[0].lower()}(): web.route('{lacking[0]}', ...) passes the METH_ALL test and add_routes() dies with AttributeError, while router.add_route('{lacking[0]}', ...) works")
+
+
+def hunt3_rules(chk, repo):
+    """Rules written after the third defect hunt (F192-F194)."""
+    # ---- C14.domain.effective: routing by host uses the host the request is addressed to --------------------------------------------------------
+    # An absolute-form target carries its own authority and the Host header must be ignored (RFC 9112 3.2.2); BaseRequest does so for
+    # request.host / request.url.  A routing rule that reads the Host header itself may do so only for targets that are not absolute.
+    nh = 0
+    mod = repo.module(MOD)
+    for fn in mod.functions.values():
+        for e in ast.walk(fn.node):
+            direct = (isinstance(e, ast.Call) and isinstance(e.func, ast.Attribute) and e.func.attr == "get" and norm.raw(e.func.value).endswith(".headers") and e.args and norm.raw(e.args[0]) == "hdrs.HOST") or (
+                isinstance(e, ast.Subscript) and norm.raw(e.value).endswith(".headers") and norm.raw(e.slice) == "hdrs.HOST")
+            if not direct:
+                continue
+            nh += 1
+            st = next(x for x in [e] + list(prog.enclosing(e, (ast.stmt,))) if isinstance(x, ast.stmt))
+            cl = PC.pc(st, raw=True)
+            if any(c and all(not l.pos for l in c) and any(l.text.endswith(".absolute") for l in c) for c in cl):
+                chk.ok("C14.domain.effective", e, f"{fn.qualname}: the Host header is consulted only when the request-target is not in absolute-form")
+            else:
+                chk.violation("C14.domain.effective", e, K.short(st, 60), "url = request._message.url; if url.absolute and url.raw_host: host = url.raw_host[:explicit_port]",
+                              f"{fn.qualname} routes by the Host header although the request-target may be in absolute-form: `GET http://a.example/ HTTP/1.1` with `Host: b.example` is dispatched to the sub-application of b.example while request.host / request.url say a.example")
+    chk.expect_count("C14.domain.effective", nh, 1, "direct reads of the Host header in web_urldispatcher.py")
+    # ---- C14.absform.root: an absolute-form target without a path asks for `/` -------------------------------------------------------------------
+    WR = "aiohttp/web_request.py"
+    ini = repo.func(WR, "BaseRequest.__init__")
+    rels = [a for a in ast.walk(ini.node) if isinstance(a, ast.Assign) and norm.raw(a.targets[0]) == "self._rel_url" and any(l.pos and l.text.endswith(".absolute") for l in PC.units(PC.pc(a, raw=True)))]
+    if not rels:
+        chk.analysis_error("C14.absform.root: the `self._rel_url = ...` of the absolute-form branch of BaseRequest.__init__ was not found")
+    for a in rels:
+        blk = PC._block_of(a) or []
+        roots = [x for st in blk[: blk.index(a)] for x in ast.walk(st) if isinstance(x, ast.Assign) and M.contains(x.value, "$U.with_path('/', ...)")
+                 and any(not l.pos and l.text.endswith(".raw_path") for l in PC.units(PC.pc(x, raw=True)))]
+        direct = M.contains(a.value, "$U.with_path('/', ...)")
+        if (roots and any(norm.raw(r.targets[0]) == norm.raw(a.value) for r in roots)) or direct:
+            chk.ok("C14.absform.root", a, "BaseRequest.__init__: the relative URL of an absolute-form target with an empty path gets the path `/`")
+        else:
+            chk.violation("C14.absform.root", a, K.short(a), "if not rel_url.raw_path: rel_url = rel_url.with_path('/', ...)",
+                          "`GET http://example.com HTTP/1.1` (and `http://example.com?x=1`) reaches the router with the path `` instead of `/` (RFC 9110 4.2.3): the route for `/` does not match and the request gets 404 where the origin-form `GET /` gets 200")
+    # ---- C14.static.rooturl: URLs are built from a prefix whose `/` is stored as `` -----------------------------------------------------------------
+    nb = 0
+    for cname, c in mod.classes.items():
+        if not any(x.name == "PrefixResource" for x in repo.mro(c)):
+            continue
+        for mname, m in c.methods.items():
+            for call in [x for x in prog.calls_in(m.node) if norm.raw(x.func) == "URL.build"]:
+                pk = next((k.value for k in call.keywords if k.arg == "path"), None)
+                if pk is None or "self._prefix" not in norm.raw(pk):
+                    continue
+                nb += 1
+                if norm.raw(pk) == "self._prefix":
+                    chk.violation("C14.static.rooturl", call, K.short(call), "URL.build(path=self._prefix or '/', encoded=True)",
+                                  f"{cname}.{mname}() builds a URL from the bare prefix, which is `` for a resource mounted at `/` (the trailing slash is not stored): the URL becomes the relative `file.txt` instead of `/file.txt` and resolves against whatever page embeds it")
+                else:
+                    chk.ok("C14.static.rooturl", call, f"{cname}.{mname}(): `{K.short(pk, 40)}` cannot be the empty path")
+    chk.expect_count("C14.static.rooturl", nb, 1, "URL.build(path=<prefix>) calls in PrefixResource subclasses")
 
 
 def folder_meth_all(repo) -> set[str]:
